@@ -11,7 +11,11 @@ RULE = ("each case = one real System on a current-thread tokio runtime with a pa
         "since the last observation, the engine's view (orders, full position record, price, balances, trading state: the recorded feed replayed through a fresh real Engine; the "
         "final block checks that replay against the engine shutdown() hands back) AND the exchange's own view (fetch_balances + fetch_trades through a second real MockExecution "
         "client on the same exchange), whether the two agree, then lets `latency` ms pass (settle / sleep) or gives the handle up without letting time pass (shutdown / abort: "
-        "answers still inside the exchange's latency sleep are lost - C20 finding F11 - in about a fifth of the cases). Thorough additionally enumerates every op sequence of length <= 3 "
+        "answers still inside the exchange's latency sleep are lost - C20 finding F11 - in about a fifth of the cases). 45 % of the cases contain no close_positions / cancel_orders command, so that "
+        "the ops-level specification states its keys for every block of the case (measured on the quick run: independent keys in 74 % of the observation blocks, the quiescence keys in 57 %; "
+        "before this generator mode 57 % / 44 %). The committed corpus (corpus/C20E/review_b.ops) holds the reviewer's hand cases: zero / negative quantities, 100 % and 200 % fees, duplicate and "
+        "re-used client order ids, zero balances, a flip on three instruments, and the inputs outside the guard PosOps on which the real engine task PANICS (a position entered at price 0 exits; a "
+        "zero-quantity position is touched again): harness and model print `panic` there and the case ends. Thorough additionally enumerates every op sequence of length <= 3 "
         "over 8 symbols (strategy order, trading on, accepted buy, accepted sell, rejected buy, close positions, settle, sleep 50) for (latency 0, no fees) and (latency 50, 1 % "
         "fees) (1 170 cases). A case is distinct by the SHA-1 of its op lines and non-trivial when the implementation's observation blocks differ")
 ASSUMPTIONS = [
@@ -19,16 +23,27 @@ ASSUMPTIONS = [
     "increasing counter shared with the execution client). With a clock that can repeat a value (LiveClock at coarse resolution, HistoricalClock between market events) two "
     "balance snapshots of one asset can carry the same exchange time; delivered out of order the `<=` guard of AssetState::update_from_balance then keeps the older one - not "
     "exhibited here, stated as the hypothesis",
-    "execution manager, client, exchange task and latency sleeps are ONE step of the model (`respond`) whose outputs may reach the feed in any order; that this summary is "
-    "legitimate is what C07 (exactly one answer per request), C08C (the answer is the exchange's answer to that very request) and C04 / C04M (keys survive the index / name "
-    "translation) prove; Props/C20E restates them for the composition (mock_client_echoes, response_is_managers_event, manager_answers_exactly_once, "
-    "client_returns_exchange_verdict) but the three transition systems are not merged into one",
+    "execution manager, client, exchange task and latency sleeps are ONE step of the model (`respond`) whose outputs may reach the feed in any order: that the execution side produces "
+    "exactly one response per request, carrying the exchange's verdict, therefore holds BY CONSTRUCTION of that step; that the summary is legitimate is what C07 (exactly one answer per "
+    "request), C08C (the answer is the exchange's answer to that very request) and C04 / C04M (keys survive the index / name translation) prove over THEIR OWN transition systems; Props/C20E "
+    "re-exports them (mock_client_echoes, response_is_managers_event, manager_answers_exactly_once, client_returns_exchange_verdict) but there is NO simulation lemma tying those systems to the "
+    "composed system's respond step - the tie is the correspondence run, in which the real ExecutionManager, MockExecution client and MockExchange task sit between engine and ledger",
+    "block discipline (the reading of the op lines as a SCRIPT by the ops-level specification): the handle calls made since the last await reach the engine first, in call order (synchronous "
+    "sends), then the market items pushed, in order (the forwarder needs a task switch); every settle / sleep ends with every request answered (the observer lets `latency` ms pass); at an "
+    "observation the exchange has processed every request sent so far, the engine has heard the answers to the requests of earlier blocks and - at latency 0 - of this block; cancel requests are "
+    "answered at once. The `h` / `m` lines of the spec check the first part on every block; the rest is checked by the keys themselves",
+    "input guard PosOps: every open request and every market item carries a positive price, every quantity asked for (open requests, strategy reactions) is positive - DERIVED for the whole run, "
+    "the strategy's and close_positions' own requests included (posOps_requests_positive), so that PosReq is no longer an undischarged hypothesis; outside the guard the real engine task panics "
+    "(0/0 in approximate_remaining_exit_fees, position.rs:517-523, when a position opened by a zero-quantity fill is touched again; 0/(0*q) in calculate_pnl_return, position.rs:549-555, when a "
+    "position entered at price 0 exits): modelled as TradingLoop.tickPanics, printed as `panic` by harness and model (corpus), excluded under the guard by posOps_no_panic. Negative quantities: "
+    "impl = model (Decimal::abs), the ops-level spec is silent",
     "the exchange is addressed by ENGINE indices (instrument i = the engine's instrument i, asset a = the engine's asset a): the `engine view` MockInstruments.specCfg of C04M; "
     "that the name-level MockExchange behind the ExecutionInstrumentMap shows exactly this view is Props.C04M.engine_view_refinement (names injective per exchange, a balance "
     "configured for exactly the exchange's assets); the harness translates labels <-> indices",
     "one exchange, every request addresses an instrument of that exchange (a request for an instrument the mock exchange does not list makes the ExecutionManager task panic: "
-    "C04 route_foreign_instrument_rejected; not exercised); open requests are market orders with positive quantities (PosReq; C02's hypothesis); engine built without orders "
+    "C04 route_foreign_instrument_rejected; C20S models that death; not exercised here); open requests are market orders; engine built without orders "
     "and without seeded balances (Fresh)",
+    "number range: exact rationals; Decimal overflow (1e15 x 1e15: the mock exchange task dies, `res joinerr 1`) and the Decimal rounding of a negative fee are outside the models and the generator",
     "the harness creates the request / event channels of the mock exchange itself (ExecutionBuilder::add_mock creates them privately) so that a second real MockExecution client "
     "can query the very same exchange: it calls the real SystemBuilder::build with an empty execution list, builds the execution side with the real ExecutionBuilder::add_live::"
     "<MockExecution<_>> + a real MockExchange::new(..).run() future over the instrument table generate_mock_exchange_instruments would derive (written out by hand: that function "
@@ -55,7 +70,8 @@ def signature(ops, k, key, impl_line, spec_line):
     op = ops[k].split() if k < len(ops) else ["?"]
     kind = op[0]
     base = key.rstrip("0123456789")
-    clause = {"net": "agreement/position", "led": "agreement/balance", "agree": "agreement",
+    clause = {"xbal": "exchange_ledger", "xtrades": "exchange_fills", "resp": "responses", "h": "script/handle", "m": "script/market",
+              "net": "agreement/position", "led": "agreement/balance", "agree": "agreement",
               "hnet": "prefix_view/position", "hbal": "prefix_view/balance", "fhnet": "prefix_view/position",
               "fhbal": "prefix_view/balance", "ord": "lifecycle_closed", "own": "own_engine"}.get(base, key)
     return f"clause={clause}/op={kind}"
@@ -64,31 +80,44 @@ def signature(ops, k, key, impl_line, spec_line):
 CLAIM = False
 TECHNIQUE = ("Lean 4: the C20S transition system (handle calls, forwarders, engine runner, one FIFO feed, arbitrary scheduler) with its abstract engine and execution records "
              "INSTANTIATED by the existing concrete models (C03/C19 engine core + C01 order tables + C02 position managers + C09 balance registers; C08 exchange ledger behind "
-             "C07 / C08C / C04M); system-level theorems by chaining the component theorems through the C20S invariants (own engine = fold, flow conservation) plus two new "
-             "invariants (exchange: produced notifications determine ledger and trade log; engine: a tracked order has a response outstanding); correspondence with the real "
-             "System + real MockExchange queried through a second real client")
+             "C07 / C08C / C04M); system-level theorems by chaining the component theorems through the C20S invariants (own engine = fold, flow conservation) plus new "
+             "invariants (exchange: produced notifications determine ledger and trade log; engine: a tracked order has a response outstanding; input guard: positive requests / well-formed position "
+             "records along every schedule); an OPS-LEVEL specification (what the script of handle calls and market items alone determines, composed from the C08 / C02 / C01 specifications) proved to be "
+             "refined by the composed model; correspondence with the real System + real MockExchange queried through a second real client, oracle = the ops-level specification")
 LEVEL_TEXT = ("Proof (sub-check of C20). Lean theorems (lean/BarterModel/Props/C20E.lean) over the COMPOSITION of the existing concrete models inside the C20S scheduler model, for "
               "EVERY action list (every tokio schedule, every handle-call sequence, every market input), unbounded: "
-              "(1) request conservation: requests_are_what_ticks_report_sent, engine_log_is_requests (what the exchange received = the engine's delivery log, once, in order), "
-              "one_response_per_request, responses_processed_at_most_once, every_request_answered_once_at_quiescence, responses_are_requests_at_quiescence + responses_never_exceed_requests "
-              "(the spec key `resp`: at every quiescent observation - the one taken before the close included - the identities of the processed responses are, as a sorted multiset, the identities of the requests sent), response_is_exchange_answer; with the manager / client in "
-              "detail: mock_client_echoes (C07's EchoesKey discharged), response_is_managers_event, manager_answers_exactly_once, client_returns_exchange_verdict (C08C); "
-              "(2) the order life cycle closes: exchange_response_is_final, response_closes_order, response_step_is_lifecycle (C01), closed_until_next_request, "
-              "order_gone_after_response, produced_orders_are_final, tracked_order_has_response_outstanding (in flight => more requests sent than responses processed), "
+              "(1) responses are answers to requests, system level: responses_processed_at_most_once, responses_never_exceed_requests, every_request_answered_once_at_quiescence, "
+              "responses_are_requests_at_quiescence (at every quiescent observation the identities of the responses the engine has processed are, as a multiset, the identities of the requests sent). "
+              "That the execution side produces one response per request carrying the exchange's verdict holds by construction of the model's one-step `respond` (bookkeeping: one_response_per_request, "
+              "response_is_exchange_answer, engine_log_is_requests, exchange_is_C08_run, requests_are_what_ticks_report_sent); C07 / C08C are re-exported over their own transition systems, NOT tied to the "
+              "composed system by a simulation (mock_client_echoes = C07's EchoesKey discharged, response_is_managers_event, manager_answers_exactly_once, client_returns_exchange_verdict); "
+              "(2) the order life cycle closes: exchange_response_is_final, produced_orders_are_final, processed_orders_never_reopen, response_closes_order, response_step_is_lifecycle (C01), closed_until_next_request, "
+              "order_gone_after_response (its former hypothesis `no later snapshot re-opens` discharged), tracked_order_has_response_outstanding (in flight => more requests sent than responses processed), "
               "no_order_tracked_at_quiescence; "
-              "(3) accounting agreement at quiescence: exchange_invariant, positions_agree_at_quiescence (C02 size_is_net over the exchange's trade log, any delivery order), "
+              "(3) accounting agreement at quiescence WHILE THE ENGINE RUNS (Quiescent includes `not stopped`; for the engine shutdown()/abort() hand back see (5)): exchange_invariant, produced_fills_are_trade_log, "
+              "positions_agree_at_quiescence (+ _any_clock: the position half needs no clock hypothesis), "
               "balances_agree_at_quiescence (C09 carries_max + C08 exact_debit, strictly increasing client clock), accounting_agreement_at_quiescence (Spec.Agree), "
-              "exchange_is_C08_run + engine_view_refines_exchange_spec (the engine's view = the C08 history-only specification applied to the engine's own request log), "
-              "command_reads_accounted_position, and through the index / name translation name_level_exchange_shows_this_exchange (under C04M's ViewHyp the name-level mock exchange "
-              "behind the ExecutionInstrumentMap answers every request with the same balance snapshot, fill and verdict as the index-level exchange of the composition); "
-              "(4) rejected_changes_no_ledger, order_response_changes_no_accounting; (5) engine_view_is_heard (position = net of the fills "
-              "HEARD, balance = deliver over the balances HEARD, at every moment), heard_balance_is_latest_heard, heard_is_part_of_exchange_log, "
-              "stopped_engine_hears_nothing_more, and the C20 finding F11 kept as shutdown_overtakes_fill_witness (two schedules, same calls, graceful shutdown in both: engine "
-              "long 1 / quote 900 vs flat / quote 1000 with the order still in flight, exchange filled in both). The composed model is tied to the code by driving the real System "
+              "engine_view_refines_exchange_spec; through the index / name translation, for OPEN requests: name_level_exchange_shows_this_exchange (under C04M's ViewHyp the name-level mock exchange "
+              "behind the ExecutionInstrumentMap shows the same balance snapshot and fill - both absent for a rejected order - and the same verdict when accepted; cancel requests and the rejection outcome are C04M's own theorems); "
+              "(4) rejected_changes_no_ledger; (5) engine_view_is_heard (position = net of the fills "
+              "HEARD, balance = deliver over the balances HEARD, at every moment, running or stopped), heard_balance_is_latest_heard, heard_is_part_of_exchange_log, "
+              "and the C20 finding F11 kept as shutdown_overtakes_fill_witness (two schedules, same calls, graceful shutdown in both: engine "
+              "long 1 / quote 900 vs flat / quote 1000 with the order still in flight, exchange filled in both); "
+              "(7) the input guard: posOps_requests_positive (PosOps on the inputs => every request of every run is positive, the strategy's and close_positions' own included: `hpos` discharged), posOps_no_panic "
+              "(no tick hits a vanishing divisor of the position code), accounting_agreement_at_quiescence_of_posOps; what the guard excludes: price_zero_exit_panics_witness, zero_quantity_position_panics_witness; "
+              "(8) the ops-level specification: requests_refine_ops_spec (every schedule, every moment: the requests sent are those the specification derives from the script of handle and market events) and "
+              "model_refines_ops_spec (at quiescence the exchange's ledger and trade log, the engine's positions and balances, the processed responses and the order tables are what the C08 / C02 / C01 specifications "
+              "compute from the script alone, and the script is exactly the handle events sent and the market items pushed). "
+              "Definitional / bookkeeping, not results: order_response_changes_no_accounting (rfl), command_reads_accounted_position (a duplicate field of the model), lMkEngine_*, stopped_engine_hears_nothing_more. "
+              "The composed model is tied to the code by driving the real System "
               "and the real MockExchange on every run and comparing, at every observation, the engine's view AND the exchange's own ledger / trade log.")
 LEVEL_NOTE = ("Trusted: Lean kernel; axioms propext/Classical.choice/Quot.sound only; the hand-written glue (Model/TradingLoop.lean) and the component models it imports; harness "
               "(recording clock, counting relay on the account channel, replay of the recorded feed through a fresh real Engine, second MockExecution client, hand-written mock "
-              "instrument table), driver, orchestrator. Oracle: the spec driver demands, at every quiescent observation, engine position = net of the C08 specification's fills "
-              "over the request log, engine balance = the specification's ledger, agree = 1, no order tracked; at every observation engine view = accounting of the notifications "
-              "processed so far. Not exhibited: when the blocking engine thread runs, OS timing, Decimal rounding, the manager's request timeout (never reached), a non-strict "
-              "client clock, a second exchange.")
+              "instrument table), driver, orchestrator. Oracle (review B C20E-1): the spec driver is the OPS-LEVEL specification TradingLoop.OpsSpec - it never runs the model; every key it prints is a function of the "
+              "op lines, the exchange configuration and independently written specification functions: INDEPENDENT keys: `h` / `m` (the script of the block), `xbal` / `xtrades` (C08 specification over the "
+              "requests the script determines: every observation), `hnet` / `hbal` / `fhnet` / `fhbal` (C02 net / C08 ledger over the requests whose answers have been heard under the block discipline), and at "
+              "observations with nothing outstanding `net` / `led` / `agree 1` / empty `ord<i>` / `resp` (one response per request); the chain is ops-spec >= model (requests_refine_ops_spec, model_refines_ops_spec) ~ code "
+              "(correspondence). The specification determines cases without close_positions / cancel_orders commands inside the input guard; from the first op outside that class on it is SILENT: those "
+              "blocks (26 % of the observation blocks of the quick run) are CORRESPONDENCE-ONLY (impl vs model), and no key is any longer the model's own run read through spec functions. `alive`, `a`, the full "
+              "position records, `sum`, `price`, `ebal`, `trading`, `processed`, `fagree`, `shutdown_audit` beyond H:shutdown are correspondence-only keys. Not exhibited: when the blocking engine thread runs, OS "
+              "timing, Decimal rounding, the manager's request timeout (never reached), a non-strict client clock, a second exchange.")
